@@ -11,7 +11,7 @@ from __future__ import annotations
 
 import ast
 
-from .source import Module, norm
+from .source import AnalysisError, Module, norm
 from .symbols import ClassInfo, Symbols, isinstance_classes
 
 
@@ -42,6 +42,10 @@ class Cond:
         return f"Cond({norm(self.test)[:60]})"
 
 
+class Unsliceable(AnalysisError):
+    """the dispatch function is no longer an isinstance chain over the classes (see Slicer._check_sliceable)"""
+
+
 class Slicer:
     def __init__(self, sym: Symbols, module: Module, subject: str, cls: ClassInfo | None, cls_name: str | None = None):
         self.sym = sym
@@ -51,6 +55,50 @@ class Slicer:
         self.cls_name = cls_name or (cls.name if cls else None)
         self.unknown_tests: list[ast.AST] = []
         self.known: dict[str, bool] = {}  # boolean locals whose value is decided for this class (`is_mutate = isinstance(nd, Mutate)`)
+
+    # ---- is the function still a dispatch by isinstance tests? ----------------------------------------------------------
+    @staticmethod
+    def _tested_classes(stmts, subject):
+        names = set()
+        for st in stmts:
+            for n in ast.walk(st):
+                if isinstance(n, ast.Call) and isinstance(n.func, ast.Name) and n.func.id == "isinstance" and len(n.args) == 2 and norm(n.args[0]) == subject:
+                    names |= {x.attr if isinstance(x, ast.Attribute) else x.id for x in ast.walk(n.args[1]) if isinstance(x, (ast.Attribute, ast.Name))}
+        return names
+
+    def _check_sliceable(self, stmts):
+        """Slicing specialises a function that dispatches on the class of its subject by isinstance tests.  When the reference
+        version of the function had a branch for this class and the analysed version tests (almost) no class any more - the
+        dispatch went into a handler table, a visitor, a method per class - the slice would be the whole function with nothing
+        selected: every rule built on it would compare an empty slice.  That is *no verdict*, so the slice is refused (the
+        callers record the obligation as undecided; the interpreted rules decide such trees)."""
+        if not stmts or self.cls_name is None:
+            return
+        from .source import _functions_by_qualname, _reference_tree
+
+        fn = getattr(stmts[0], "_parent", None)
+        while fn is not None and not isinstance(fn, (ast.FunctionDef, ast.AsyncFunctionDef)):
+            fn = getattr(fn, "_parent", None)
+        if fn is None or list(fn.body) is not stmts and fn.body != stmts:
+            return
+        now = self._tested_classes(stmts, self.subject)
+        if self.cls_name in now:
+            return
+        rel = getattr(self.module, "src_rel", None)
+        q = getattr(fn, "_qualname", None)
+        rtree = _reference_tree(rel) if rel else None
+        if rtree is None or q is None:
+            return
+        rf = _functions_by_qualname(rtree).get(q)
+        if rf is None:
+            return
+        rsubj = self.subject
+        before = self._tested_classes(rf.body, rsubj)
+        if self.cls_name in before and len(now) * 2 < len(before):
+            raise Unsliceable(
+                f"`{q}` no longer dispatches on the class of `{self.subject}` by isinstance tests ({len(now)} classes tested, {len(before)} in the "
+                f"reference version; no test mentions {self.cls_name}): the per-class slice is not available"
+            )
 
     # three-valued evaluation of a test: True / False / residual ast
     def eval_test(self, test):
@@ -124,7 +172,9 @@ class Slicer:
                 setattr(new, a, getattr(st, a))
         return new
 
-    def slice(self, stmts) -> list:
+    def slice(self, stmts, _top=True) -> list:
+        if _top:
+            self._check_sliceable(stmts)
         out = []
         for st in stmts:
             if isinstance(st, ast.Assign) and len(st.targets) == 1 and isinstance(st.targets[0], ast.Name):
@@ -138,11 +188,11 @@ class Slicer:
             if isinstance(st, ast.If):
                 v = self.eval_test(st.test)
                 if v is True:
-                    out.extend(self.slice(st.body))
+                    out.extend(self.slice(st.body, False))
                 elif v is False:
-                    out.extend(self.slice(st.orelse))
+                    out.extend(self.slice(st.orelse, False))
                 else:
-                    out.append(Cond(v, self.slice(st.body), self.slice(st.orelse), st))
+                    out.append(Cond(v, self.slice(st.body, False), self.slice(st.orelse, False), st))
             else:
                 out.append(st)
         return out
@@ -189,3 +239,14 @@ def slice_is_noop(items, subject_free_ok=True) -> bool:
             continue
         return False
     return True
+
+
+def try_slice(chk, rule, slicer: "Slicer", body):
+    """slice, or None (with an undecided note on the check) when the function is no isinstance dispatch any more"""
+    try:
+        return slicer.slice(body)
+    except Unsliceable as e:
+        msg = f"{rule}: {str(e)[:200]}"
+        if msg not in chk.undecided:
+            chk.undecided.append(msg)
+        return None
